@@ -76,9 +76,10 @@ func nastyProgram(rng *rand.Rand) []byte {
 // counter, body lines, ROF, closing lines; any category may be missing or come twice
 var equPool = []string{"e equ", "e2 equ", "b equ e", "c equ e+e2", "d equ b", "a equ a+1", "p equ q", "q equ p", "r equ s", "s equ t", "t equ r+1",
 	"k equ 2", "m equ k*k", "e equ 1", "z equ"}
-var forPool = []string{"for 1", "i for 2", "j for k", "n for e", "lbl i for 1", "i for a", "i for b", "for"}
+var forPool = []string{"for 1", "i for 2", "j for k", "n for e", "lbl i for 1", "i for a", "i for b", "for", "i for 0-1", "pad for k-3", "i for 0-k", "for -2", "a: i for 2"}
 var bodyPool = []string{"dat 0", "dat a", "dat b", "dat e", "dat i", "mov m, k", "jmp lbl", "x", "x:", "dat d, z"}
-var closePool = []string{"rof", "rof", "rof", "", "end", "end a", ";assert a", ";assert b", ";assert k == 2", "org b", "rof rof"}
+var closePool = []string{"rof", "rof", "rof", "", "end", "end a", ";assert a", ";assert b", ";assert k == 2", "org b", "rof rof",
+	";assert k == 2 ; note", ";assert 1 ; x", ";strategy", ";strategy ", ";name", ";author", ";redcode", ";assert", ";assert 1,2", ";assert !"}
 
 func poolProgram(rng *rand.Rand) []byte {
 	var ls []string
